@@ -146,6 +146,9 @@ def judge(program, w, marks):
             bad.append((tag + 'started-count', '`started` dispatched %d times' % nstart))
         if nstop != 1:
             bad.append((tag + 'stopped-count', '`stopped` dispatched %d times before run() returned' % nstop))
+        for x in seg:
+            if x[0] == 'obs' and x[1] in ('started', 'stopped') and x[4] != (True,):
+                bad.append((tag + 'args', '`%s` does not carry the manager that was %s' % (x[1], x[1])))
         fired = [x[1] for x in seg if x[0] == 'fire']
         entered = [x[2] for x in seg if x[0] == 'enter']
         lost = [e for e in fired if e not in entered]
